@@ -94,6 +94,9 @@ type WorldOpts struct {
 	PPodUpdateLags float64 `json:"pPodUpdateLags,omitempty"`
 	// Closed: evicted pods are re-created as pending (C15)
 	Closed bool `json:"closed,omitempty"`
+	// EarlyRecreate (with Closed): the replacement is created as soon as the old pod is terminating (what a workload
+	// controller does), not when it is gone: old and new pod of a workload coexist for the grace period
+	EarlyRecreate bool `json:"earlyRecreate,omitempty"`
 	// UseRealBinder: drive BindRequests through the real binder reconciler
 	UseRealBinder bool `json:"useRealBinder,omitempty"`
 }
